@@ -32,7 +32,37 @@ def ignore_missing_side(x, y):
     return y == 'out missing any' and x.startswith('out missing ')
 
 
+_MAXMIN = __import__('re').compile(r'(\bm [45]\b|\bm=[45]\b)')
+
+
+_HEX16 = __import__('re').compile(r'(?<= )[0-9a-f]{16}(?= |$)')
+
+
+def _determined_for_max_min(m):
+    b = int(m.group(0), 16)
+    if b == 0x8000000000000000:
+        return '0000000000000000'
+    if (b >> 52) & 0x7ff == 0x7ff and b & ((1 << 52) - 1):
+        return '4045000000000000'
+    return m.group(0)
+
+
+def no_signed_zero_under_max_min(gen):
+    """max / min over values that contain both -0 and +0, or a NaN written as a value: -0 and +0 are the same value and
+    a maximum of a set with a NaN in it is not defined, so which bit pattern an implementation returns (what its scan
+    meets first, or what IEEE's maximum says) is not determined by any property.  Cases that create a file with one
+    of these two methods therefore write neither -0 nor NaN values, and do not copy NaNs."""
+    def g(rnd, n, thorough=False):
+        cases = gen(rnd, n, thorough)
+        for cs in cases:
+            if any(_MAXMIN.search(l) for l in cs['lines']):
+                cs['lines'] = [_HEX16.sub(_determined_for_max_min, l).replace(' copynan=1', ' copynan=0') for l in cs['lines']]
+        return cases
+    return g
+
+
 def entry(gen, quick, thorough, rule, modelled='', **kw):
+    gen = no_signed_zero_under_max_min(gen)
     d = {'gen': gen, 'cases': (quick, thorough), 'rule': rule, 'modelled': modelled, 'ignore': ignore_missing_side}
     d.update(kw)
     return d
